@@ -32,6 +32,10 @@ theorem format_irrelevant (A B : Mat) (hA : isSquare A = true) (hB : isSquare B 
   unfold makeDist
   rw [hA, hB, h]
 
+/-- non-vacuity: a weighted, mixed-orientation matrix and the symmetric 0/1 matrix of the same path -/
+example : isSquare ([[0,7,0],[0,0,0],[0,2,0]] : Mat) = true ∧ isSquare ([[0,1,0],[1,0,1],[0,1,0]] : Mat) = true ∧
+    adjOf [[0,7,0],[0,0,0],[0,2,0]] = adjOf [[0,1,0],[1,0,1],[0,1,0]] := by decide
+
 private theorem entry_symClosure (A : Mat) {i j : Nat} (hi : i < A.length) (hj : j < A.length) :
     entry (symClosure A) i j = max (entry A i j) (entry A j i) := by
   simp [entry, symClosure, ent_tab 0 _ hi hj]
@@ -622,6 +626,13 @@ theorem collection_format_irrelevant (As Bs : List Mat) (hl : As.length = Bs.len
   unfold gromovHausdorff
   simp only [hl, collect_congr est As Bs hmk]
 
+/-- the same for a pair call -/
+theorem pair_format_irrelevant (G G' H H' : Mat)
+    (hG : isSquare G = true ∧ isSquare G' = true ∧ adjOf G = adjOf G')
+    (hH : isSquare H = true ∧ isSquare H' = true ∧ adjOf H = adjOf H') (s : σ) :
+    gromovHausdorff est zero (.pair G H) s = gromovHausdorff est zero (.pair G' H') s := by
+  rw [gh_pair_eq, gh_pair_eq, format_irrelevant G G' hG.1 hG.2.1 hG.2.2, format_irrelevant H H' hH.1 hH.2.1 hH.2.2]
+
 end dispatch
 
 /-! ## 6. Specification level: the distance being bracketed does not depend on the labelling
@@ -703,6 +714,9 @@ def demoEst (s : Nat) (X Y : Mat) : (Nat × Nat) × Nat := ((X.length, X.length 
 example :
     gromovHausdorff demoEst 0 (.coll [[[0,1],[0,0]], [[0]], G32]) 10 =
       .ok (.mats [[0,2,2],[2,0,1],[2,1,0]] [[0,13,16],[13,0,16],[16,16,0]], 13) := by decide
+
+/-- `demoEst` meets the hypothesis of `lb_deterministic`: its lower bound ignores the state -/
+example : ∀ s s' X Y, (demoEst s X Y).1.1 = (demoEst s' X Y).1.1 := fun _ _ _ _ => rfl
 
 example :
     gromovHausdorff demoEst 0 (.pair [[0]] G32) 12 = .ok (.pair 1 16, 13) := by decide
